@@ -41,9 +41,9 @@ def generate(c):
         sw = sw[::(len(sw) // 12000 + 1)]
     cases += sw
     stats["focus_switch_programs"] = len(sw)
-    nsim = 80 if c.quick else 3000
+    nsim = 80 if c.quick else 2000
     # the simulation is deterministic for a seed: cached so that the five analyser checks share one TLC run per (tier, seed)
-    s = run_tlc("analyzer", "MCAnalyzer", "MCAnalyzer_sim.cfg", workers=1, timeout=3000, xss="512m", simulate=nsim, depth=14, seed=c.seed, keep_tags={"CASE"},
+    s = run_tlc("analyzer", "MCAnalyzer", "MCAnalyzer_sim.cfg", workers=1, timeout=7200, xss="512m", simulate=nsim, depth=14, seed=c.seed, keep_tags={"CASE"},
                 cache_key=f"sim-{nsim}-{c.seed}")
     if s.timed_out or s.violated:
         c.tool_error(f"Analyzer simulation failed: {s.violated} {s.error_text} {s.raw_tail[-600:]}")
